@@ -30,7 +30,7 @@ func (s *scope) set(name string, val value) {
 		return
 	}
 	s.values[name] = val
-	verifVar("Declare", name, val)
+	verifDeclare(s, name, val)
 }
 
 func (s *scope) update(name string, val value) {
